@@ -57,6 +57,17 @@ func ParseCSRResponse(signPrivateKey *sm2.PrivateKey, der []byte) (CSRResponse, 
 		signCerts[i] = signCert
 	}
 
+	if len(signCerts) == 0 {
+		return result, errors.New("smx509: no sign cert in CSRResponse")
+	}
+	// signCertificate is a SET OF Certificate: DER encoding sorts its elements, so the requester's
+	// certificate is not necessarily the first one. Bring it to the front.
+	for i, signCert := range signCerts {
+		if signPrivateKey.PublicKey.Equal(signCert.PublicKey) {
+			signCerts[0], signCerts[i] = signCerts[i], signCerts[0]
+			break
+		}
+	}
 	// check sign public key against the private key
 	if !signPrivateKey.PublicKey.Equal(signCerts[0].PublicKey) {
 		return result, errors.New("smx509: sign cert public key mismatch")
